@@ -12,13 +12,15 @@ Section Protocol.
 Variable digest : Type.
 Variable H : list byte -> digest.
 Variable deq : digest -> digest -> bool.
-(* the codec stack of this transfer, applied to the concatenation of the DATA frames *)
-Variable decode : list byte -> option (list byte).
+(* the codec stack of this transfer (pipelineDecodeData), a streaming reader over the DATA frames
+   received before the finish flag, in order *)
+Variable decode : list (list byte) -> option (list byte).
 
 (* what the receiver reads for one file, after the SIZE line *)
 Inductive line :=
 | LData (frame : list byte)      (* #DATA: with this (still encoded) payload; [] = finish flag *)
 | LMd5 (d : digest)              (* #MD5: *)
+| LKeep                          (* #DATA:= the keep-alive of a pausing peer (protocol >= 3): recvCheckV2 reads again *)
 | LOther.                        (* anything else: wrong type, undecodable, fail line, timeout *)
 
 Inductive verdict :=
@@ -29,7 +31,7 @@ Inductive verdict :=
 (* protocol >= 2 (recvFileDataV2): frames are collected until the empty finish frame;
    the decoded stream is written; pipelineSaveData demands step = size; then the MD5 line
    must equal the digest of what was written *)
-Fixpoint recv_v2 (size : Z) (acc : list byte) (ls : list line) : verdict :=
+Fixpoint recv_v2 (size : Z) (acc : list (list byte)) (ls : list line) : verdict :=
   match ls with
   | [] => Waiting
   | LData [] :: rest =>
@@ -44,7 +46,8 @@ Fixpoint recv_v2 (size : Z) (acc : list byte) (ls : list line) : verdict :=
         end
       else Reject
     end
-  | LData f :: rest => recv_v2 size (acc ++ f) rest
+  | LData f :: rest => recv_v2 size (acc ++ [f]) rest
+  | LKeep :: rest => recv_v2 size acc rest
   | _ => Reject
   end.
 
